@@ -6,7 +6,7 @@ CFG = {
          '(regular, repeats, all-equal, integer, large offset, wide range, zeros) with no / finite / partly -Inf log-weights and random configured '
          'bounds (SigmaMin, LambdaMax): bounds respected and no admissible perturbation theta +- {1e-3,1e-5}*scale*e_k raises the independently '
          'written weighted log-likelihood; numeric estimator (newton, bfgs, rprop on normal / exponential / gamma): closed-form gradient norm below '
-         'the estimator epsilon.  (b) EM trajectories (scalar and vector mixtures, vector and matrix HMMs incl. start / single final state / shared '
+         'the estimator epsilon.  (b) EM trajectories (scalar and vector mixtures, the summarised-data DiscreteMixtureEstimator via SetData+Estimate judged on the expanded data and differentially against the raw-data MixtureEstimator, vector and matrix HMMs incl. start / single final state / shared '
          'emissions, mixture-of-mixtures, HMM-of-mixtures) with a sequential pool: the likelihood reported to hook i+1 equals LogPdf of the model '
          'handed to hook i, and the log-likelihood of successive models never decreases.  non-trivial = judged case with >=2 observations (closed '
          'form) / >=2 hook calls (EM); distinct by configuration+data hash',
@@ -36,17 +36,18 @@ CFG = {
              'directed:closed.wrapper': 5,
              'directed:em.hmm': 7,
              'directed:em.hmm.options': 2,
+             'directed:em.mixture.discrete': 1,
              'directed:em.mixture.scalar': 2,
              'directed:em.mixture.vector': 4,
              'directed:numeric': 2,
              'em-family:ScalarId:normal': 138,
              'em-family:ScalarId:poisson': 139,
-             'em-family:categorical': 338,
-             'em-family:exponential': 371,
-             'em-family:geometric': 427,
-             'em-family:negativeBinomial': 350,
-             'em-family:normal': 415,
-             'em-family:poisson': 418,
+             'em-family:categorical': 542,
+             'em-family:exponential': 581,
+             'em-family:geometric': 612,
+             'em-family:negativeBinomial': 539,
+             'em-family:normal': 620,
+             'em-family:poisson': 608,
              'em-family:vectorNormal': 291,
              'em-hmm-restriction:final': 165,
              'em-hmm-restriction:none': 505,
@@ -57,9 +58,10 @@ CFG = {
              'em:matrixHmm': 217,
              'em:nested:hmm': 141,
              'em:nested:mixture': 139,
-             'em:pairing-checked': 24294,
+             'em:pairing-checked': 37558,
              'em:scalarMixture': 1201,
-             'em:step-checked': 24272,
+             'em:step-checked': 37528,
+             'em:summarisedMixture': 1200,
              'em:vectorHmm': 695,
              'em:vectorMixture': 602,
              'entry:Estimate': 3957,
@@ -72,7 +74,7 @@ CFG = {
              'estimator:normal': 1466,
              'estimator:poisson': 1468,
              'estimator:vector-normal': 3002,
-             'judged-estimates': 11477,
+             'judged-estimates': 12488,
              'mvn:dim=1': 1003,
              'mvn:dim=2': 978,
              'mvn:dim=3': 978,
@@ -84,11 +86,14 @@ CFG = {
              'numeric:gamma': 55,
              'numeric:judged': 264,
              'numeric:normal': 203,
-             'perturbation:evaluated': 100374,
-             'perturbation:projected-onto-bound': 21601,
+             'perturbation:evaluated': 108642,
+             'perturbation:projected-onto-bound': 22953,
              'size:n=1': 1465,
              'size:n=2-5': 1549,
              'size:n>5': 5836,
+             'summarised:counts=1': 139,
+             'summarised:counts>1': 1037,
+             'summarised:differential-step': 12899,
              'weights:unweighted': 2180,
              'weights:weighted': 4441,
              'weights:weighted+(-Inf)': 2233,
